@@ -188,6 +188,7 @@ CATALOGUE = [
     ("C15", "c15-decl-typed-by-global", SL, "            if symbol is not None and symbol.defined_at is not stmt:\n                # Declared in a function or loop body: the name found is somebody else's\n                symbol = None\n", "", 1, "fire", "C15-R19"),
     ("C04", "c04-loop-input-shares-red", PL, "                                if source_id != entity_id:\n                                    locked[(source_id, feedback_signal)] = \"green\"\n", "                                pass\n", 1, "fire", "C04-R10"),
     ("C01", "c01-merge-operand-default-red", CP, "                if edge.originating_merge_id == source_entity_id\n", "                if False\n", 1, "fire", "C01-R16"),
+    ("C15", "c15-nested-call-dynamic-scope", EL, "            self.parent.signal_refs = outer_signals.copy()\n", "", 1, "fire", "C15-R20"),
     ("C10", "c10-remainder-sign", "dsl_compiler/src/common/int32.py", "    return left - right * trunc_div(left, right)", "    remainder = abs(left) % abs(right)\n    return -remainder if (left < 0) != (right < 0) else remainder", 1, "fire", "C10-R17"),
     ("C11", "c11-remainder-sign", "dsl_compiler/src/common/int32.py", "    return left - right * trunc_div(left, right)", "    remainder = abs(left) % abs(right)\n    return -remainder if (left < 0) != (right < 0) else remainder", 1, "fire", "witness"),
 ]
